@@ -650,8 +650,11 @@ class EligibilityMonitor(Monitor):
                 mine = [r['t'] for r in tr.requests if r['sender'] == inst.nick and r['inc'] == inst.inc and
                         r['namespec'].split(':')[0] == app_name and r['epoch'] == req['epoch']]
                 t0 = min(mine + [w.now])
-                foreign_since = [r for r in tr.requests if r['namespec'].split(':')[0] != app_name and
-                                 self.node_of.get(r['target']) == node and r['t'] >= t0 - 2 * TICK]
+                # (another application, or the same application started at the same time through ANOTHER instance)
+                foreign_since = [r for r in tr.requests
+                                 if (r['namespec'].split(':')[0] != app_name or r['sender'] != inst.nick or
+                                     r['inc'] != inst.inc)
+                                 and self.node_of.get(r['target']) == node and r['t'] >= t0 - 2 * TICK]
                 ek = (inst.nick, inst.inc, app_name, req['epoch'])
                 if run.prog_of(namespec)[1].get('start_sequence', 0) == 0 and ek in tr.process_epochs and \
                         ek not in tr.queued_epochs:
